@@ -34,6 +34,16 @@ theorem cmdline_denied (w : World) (hd : w.dirExists = true) (hc : w.cmdline = .
     cmdline good w = .error .accessDenied := by
   simp [cmdline, cmdlineRaw, readFile, hd, hc, bind, Except.bind, wrap]
 
+/-- the exception plumbing of `wrap_exceptions` on an OS error of a file below `/proc/<pid>` -/
+theorem fileErr_wrap {α : Type} (w : World) (e : Err) (x : Exc) (hd : w.dirExists = true)
+    (h : fileErr w e = some x) : wrap w (.error (.os e) : Raw α) = .error x := by
+  cases e <;> cases hz : w.zombie <;> simp [fileErr, hz] at h <;> subst h <;>
+    simp [wrap, isZombie, hd, hz]
+
+theorem cmdline_err (w : World) (e : Err) (hd : w.dirExists = true) (hc : w.cmdline = .err e) :
+    cmdline good w = wrap w (.error (.os e)) := by
+  simp [cmdline, cmdlineRaw, readFile, hd, hc, bind, Except.bind]
+
 /-- wherever the specification of `cmdline()` speaks, the model says the same -/
 theorem cmdline_sound (w : World) (r : Res (List Bytes)) (h : Spec.cmdline w = some r) :
     cmdline good w = r := by
@@ -49,8 +59,10 @@ theorem cmdline_sound (w : World) (r : Res (List Bytes)) (h : Spec.cmdline w = s
       simp only [hc, Option.some.injEq] at h
       rw [← h]; exact cmdline_data w d hd hc
     | err e =>
-      cases e <;> simp only [hc, Option.some.injEq, reduceCtorEq] at h
-      rw [← h]; exact cmdline_denied w hd hc
+      simp only [hc, Option.map_eq_some_iff] at h
+      obtain ⟨x, hx, hr⟩ := h
+      rw [← hr, cmdline_err w e hd hc]
+      exact fileErr_wrap w e x hd hx
 
 theorem environ_sound (w : World) (r : Res Dict) (h : Spec.environ w = some r) :
     environ good w = r := by
@@ -69,9 +81,13 @@ theorem environ_sound (w : World) (r : Res Dict) (h : Spec.environ w = some r) :
       simp [environ, environRaw, readFile, hd, hc, bind, Except.bind, wrap, textRead_good,
         parseEnvironBlock_eq]
     | err e =>
-      cases e <;> simp only [hc, Option.some.injEq, reduceCtorEq] at h
-      rw [← h]
-      simp [environ, environRaw, readFile, hd, hc, bind, Except.bind, wrap]
+      simp only [hc, Option.map_eq_some_iff] at h
+      obtain ⟨x, hx, hr⟩ := h
+      rw [← hr]
+      have : environ good w = wrap w (.error (.os e)) := by
+        simp [environ, environRaw, readFile, hd, hc, bind, Except.bind]
+      rw [this]
+      exact fileErr_wrap w e x hd hx
 
 /-- `_readlink` + `wrap_exceptions` for one link, against the specification -/
 theorem link_sound (w : World) (l : LinkSt) (r : Res Bytes) (h : Spec.link w l = some r) :
@@ -140,28 +156,32 @@ theorem guess_cond (fs : Bytes → FsEnt) (a0 : Bytes) :
             decide_eq_false_iff_not]
           exact ⟨h2, h3⟩
 
-/-- a successful guess is the answer, otherwise the fallback -/
-def orElse (g : Option Bytes) (fb : Res Bytes) : Res Bytes :=
+/-- a successful guess is the answer; no guess: the fallback; `cmdline()` fails: its error -/
+def orElse (g : Guess) (fb : Res Bytes) : Res Bytes :=
   match g with
-  | some a0 => .ok a0
-  | none => fb
+  | .path a0 => .ok a0
+  | .nothing => fb
+  | .fails e => .error e
 
-theorem guessIt_sound (w : World) (fb : Res Bytes) (g : Option Bytes)
+theorem guessIt_sound (w : World) (fb : Res Bytes) (g : Guess)
     (h : Spec.guessOf w = some g) : guessIt good w fb = orElse g fb := by
   cases hc : Spec.cmdline w with
   | none => simp [Spec.guessOf, hc] at h
   | some r =>
     have hm := cmdline_sound w r hc
     cases r with
-    | error e => simp [Spec.guessOf, hc] at h
+    | error e =>
+      have hg : g = .fails e := by simpa [Spec.guessOf, hc] using h.symm
+      subst hg
+      simp [guessIt, hm, orElse]
     | ok cl =>
       cases cl with
       | nil =>
-        have hg : g = none := by simpa [Spec.guessOf, hc] using h.symm
+        have hg : g = .nothing := by simpa [Spec.guessOf, hc] using h.symm
         subst hg
         simp [guessIt, hm, orElse]
       | cons a0 rest =>
-        have hg : g = if (a0.head? = some 47 ∧ 0 ∉ a0 ∧ w.fs a0 = .file true) then some a0 else none := by
+        have hg : g = if (a0.head? = some 47 ∧ 0 ∉ a0 ∧ w.fs a0 = .file true) then .path a0 else .nothing := by
           simpa [Spec.guessOf, hc] using h.symm
         subst hg
         simp only [guessIt, hm]
@@ -196,16 +216,22 @@ theorem exeOnce_sound (w : World) (r : Res Bytes) (rem : Bool)
         | some g =>
           have hgs := guessIt_sound w (.ok []) g hg
           cases g with
-          | some a0 =>
+          | path a0 =>
             simp only [hg, Option.some.injEq, Prod.mk.injEq] at h
             obtain ⟨h1, h2⟩ := h
             subst h1; subst h2
             simp [exe, hp, hgs, remembered, orElse]
-          | none =>
+          | nothing =>
             simp only [hg, Option.some.injEq, Prod.mk.injEq] at h
             obtain ⟨h1, h2⟩ := h
             subst h1; subst h2
             simp [exe, hp, hgs, remembered, orElse]
+          | fails e =>
+            cases e <;>
+              (simp only [hg, Option.some.injEq, Prod.mk.injEq] at h
+               obtain ⟨h1, h2⟩ := h
+               subst h1; subst h2
+               simp [exe, hp, hgs, remembered, orElse])
       · simp only [hl, ne_eq, hpne, not_false_eq_true, if_true, Option.some.injEq,
           Prod.mk.injEq] at h
         obtain ⟨h1, h2⟩ := h
@@ -220,17 +246,11 @@ theorem exeOnce_sound (w : World) (r : Res Bytes) (rem : Bool)
         | none => simp [hg] at h
         | some g =>
           have hgs := guessIt_sound w (.error .accessDenied) g hg
-          cases g with
-          | some a0 =>
-            simp only [hg, Option.some.injEq, Prod.mk.injEq] at h
-            obtain ⟨h1, h2⟩ := h
-            subst h1; subst h2
-            simp [exe, hp, hgs, remembered, orElse]
-          | none =>
-            simp only [hg, Option.some.injEq, Prod.mk.injEq] at h
-            obtain ⟨h1, h2⟩ := h
-            subst h1; subst h2
-            simp [exe, hp, hgs, remembered, orElse]
+          cases g <;>
+            (simp only [hg, Option.some.injEq, Prod.mk.injEq] at h
+             obtain ⟨h1, h2⟩ := h
+             subst h1; subst h2
+             simp [exe, hp, hgs, remembered, orElse])
       | noSuchProcess =>
         simp only [hl, Option.some.injEq, Prod.mk.injEq] at h
         obtain ⟨h1, h2⟩ := h
@@ -337,33 +357,25 @@ theorem name_sound (w : World) (r : Res Bytes) (h : Spec.name w = some r) : name
       simp [name, procName, hd, nameLen_good, nameMinLen_good, this]
     · have h15 : 15 ≤ w.comm.length := by unfold commMax at hlen; omega
       simp only [hlen, if_false] at h
-      cases hc : w.cmdline with
-      | data d =>
-        have hm := cmdline_data w d hd hc
-        simp only [hc] at h
-        cases hco : cmdlineOf w.zombie d with
+      cases hc : Spec.cmdline w with
+      | none => simp [hc] at h
+      | some cr =>
+        have hm := cmdline_sound w cr hc
+        cases cr with
         | error e =>
-          have he := cmdlineOf_error _ _ _ hco
-          subst he
-          simp only [hco, Option.some.injEq] at h
-          rw [← h]
-          rw [hco] at hm
-          simp [name, procName, hd, nameLen_good, nameMinLen_good, h15, hm]
+          cases e <;>
+            (simp only [hc, Option.some.injEq] at h
+             rw [← h]
+             simp [name, procName, hd, nameLen_good, nameMinLen_good, h15, hm])
         | ok argv =>
-          simp only [hco, Option.some.injEq] at h
+          simp only [hc, Option.some.injEq] at h
           rw [← h]
-          rw [hco] at hm
           cases argv with
           | nil => simp [name, procName, hd, nameLen_good, nameMinLen_good, h15, hm, nameRule]
           | cons a0 rest =>
             simp only [name, procName, hd, if_true, nameLen_good, nameMinLen_good, h15, hm,
               namePrefix_good, nameRule, List.head?_cons, basename_eq_base, commMax, true_and]
             by_cases hp : w.comm.isPrefixOf (base a0) = true <;> simp [hp]
-      | err e =>
-        cases e <;> simp only [hc, Option.some.injEq, reduceCtorEq] at h
-        rw [← h]
-        have hm := cmdline_denied w hd hc
-        simp [name, procName, hd, nameLen_good, nameMinLen_good, h15, hm]
 
 /-- the worlds of the `exe()` calls of a history -/
 def exeWorldsOf (hist : List (World × Call)) : List World :=
